@@ -301,7 +301,13 @@ class VDatetime(metaclass=_DTMeta):
         clock = current_clock()
         if clock is None:
             return real_datetime.now(tz)
-        return clock.now()
+        v = clock.now()
+        if tz is not None:
+            # the virtual clock is naive UTC (TZ=UTC): an aware "now" is that instant seen from the zone asked for
+            if not isinstance(v, real_datetime):
+                raise TypeError("a symbolic clock read in a time zone is not modelled (aware datetimes are concrete in the harnesses)")
+            return v.replace(tzinfo=_dt.timezone.utc).astimezone(tz)
+        return v
 
     @staticmethod
     def utcnow():
